@@ -405,6 +405,36 @@ def list_layout_table_cases():
                                "debug": mode // 2, "provs": [], "layouts": {"M0": "as_list"}}
 
 
+def duck_table_cases():
+    """Dict-layout models whose FIRST looked-up field is optional / required x root data that have one method of a mapping only
+    (``get`` alone, ``__getitem__`` alone), scalars and other non-mappings, at the root and one level down."""
+    for kind in ("dataclass", "typeddict", "namedtuple", "attrs"):
+        for order in ("opt_first", "req_first", "all_opt", "all_req"):
+            fs = {"opt_first": [("a", True), ("b", False)], "req_first": [("a", False), ("b", True)],
+                  "all_opt": [("a", True), ("b", True)], "all_req": [("a", False), ("b", False)]}[order]
+            if kind != "typeddict":   # (a TypedDict orders its keys by name; the others need defaults last)
+                fs = sorted(fs, key=lambda f: f[1])
+                if order == "opt_first":
+                    continue
+            dflt = ["nr"] if kind == "typeddict" else ["v", 0]
+            model = ["model", {"name": "M0", "kind": kind,
+                               "fields": [{"n": n, "t": ["int"], "d": dflt if opt else None} for n, opt in fs]}]
+            for label, datum in {"getonly": {"$": "getonly"}, "rematch": {"$": "rematch"}, "sqlrow": {"$": "sqlrow"}, "opaque": {"$": "opaque"}, "int": 5,
+                                 "str": "ab", "list": [1, 2], "none": None, "itemsonly": {"$": "itemsonly", "v": [["a", 1], ["b", 2]]},
+                                 "set": {"$": "set", "v": ["a", "b"]}, "custmap": {"$": "custmap", "v": [["a", 1], ["b", 2]]}}.items():
+                for wrap in ("root", "in_list", "in_model"):
+                    if wrap == "root":
+                        t, d = model, datum
+                    elif wrap == "in_list":
+                        t, d = ["list", model, "typing"], [datum]
+                    else:
+                        t = ["model", {"name": "M1", "kind": "dataclass", "fields": [{"n": "m", "t": model, "d": None}]}]
+                        d = {"$": "d", "v": [["m", datum]]}
+                    for mode in range(6):
+                        yield {"t": t, "datum": d, "ops": ["table", f"duck:{order}:{label}"], "strict": bool(mode % 2),
+                               "debug": mode // 2, "provs": [], "layouts": {}}
+
+
 def unhashable_element_table_cases():
     """Every set-like type x element types whose LOADED values can be unhashable x data that make them so."""
     kinds = [lambda e: ["set", e, "typing"], lambda e: ["set", e, "builtin"], lambda e: ["frozenset", e, "typing"],
@@ -468,6 +498,13 @@ def extra_field_table_cases():
 
 
 def explore(ctx: runner.Ctx):
+    n_dk = 0
+    for i, c in enumerate(duck_table_cases()):
+        n_dk += 1
+        if i % ctx.nshards == ctx.shard:
+            runner.guarded(ctx, lambda k: check_case(ctx, k), c)
+    ctx.mark_exhaustive(f"duck table: {n_dk} cases = dict-layout models (first looked-up field optional / required) x 10 root data that "
+                        f"are mappings by one method only, or not at all x (root, list element, model field) x 6 mode combinations")
     n_ue = 0
     for i, c in enumerate(unhashable_element_table_cases()):
         n_ue += 1
